@@ -104,6 +104,18 @@ theorem cells_match_header (o : Opts) (withDivs : Bool) (r : Row) :
   repeat' split
   all_goals rfl
 
+/-- the storage types: the four time columns are binary32 (`f4`: what Model/NoteArrayF64.lean `storeRow64` rounds to),
+    the flag is a byte, `id`, `step`, `grace_type` are strings, every other column a 32-bit integer — in the note and in the
+    rest function -/
+theorem storage_types :
+    (readable "noteFields" → ∀ g ∈ Gen.C05.noteFields, ∀ f ∈ g.2,
+      f.2 = (if f.1 ∈ ["onset_beat", "duration_beat", "onset_quarter", "duration_quarter"] then "f4"
+             else if f.1 ∈ ["id", "step", "grace_type"] then "U256" else if f.1 = "is_grace" then "b" else "i4")) ∧
+    (readable "restFields" → ∀ g ∈ Gen.C05.restFields, ∀ f ∈ g.2,
+      f.2 = (if f.1 ∈ ["onset_beat", "duration_beat", "onset_quarter", "duration_quarter"] then "f4"
+             else if f.1 ∈ ["id", "step", "grace_type"] then "U256" else if f.1 = "is_grace" then "b" else "i4")) := by
+  decide +kernel
+
 /-- `note_array_from_part` / `rest_array_from_part` hand a signature / measure map to the list function exactly when
     the option of that name is set, each under its own keyword; notes come from `notes_tied`, rests from `rests`;
     beat and quarter maps are always handed over. -/
